@@ -120,3 +120,82 @@ Section DeltaUsed.
     - intros m Hm. apply walk_used_frame. exact Hm.
   Qed.
 End DeltaUsed.
+
+(* ---------- the same in "individual" form: nothing is assumed about quotas that are neither
+   the start nor its ancestors (used while a quota is being re-attached, and during a rebuild) *)
+
+Section DeltaInd.
+  Variable sh : list qshape.
+  Hypothesis Hshape_nd : NoDup (names sh).
+  Hypothesis Hnz : forall q, In q sh -> q_name q <> 0.
+  Hypothesis Hvals : ValsOk sh.
+
+  Lemma walk_req_ind n l q R d dnp self :
+    reaches sh n l -> find sh n = Some q -> PosR sh R ->
+    (forall q0, In q0 sh -> In (q_name q0) (tl_ok l) -> okN sh R q0) ->
+    vnonneg (vadd (r_creq (R n)) d) -> vnonneg (vadd (r_np (R n)) dnp) ->
+    (self = true -> vnonneg (vadd (r_sreq (R n)) d) /\ vnonneg (vadd (r_snp (R n)) dnp)) ->
+    let R' := walk_req sh R l d dnp self in
+    PosR sh R' /\
+    (forall q0, In q0 sh -> okB R q0 \/ In (q_name q0) l -> okB R' q0) /\
+    (forall q0, In q0 sh -> q_name q0 <> n -> okA sh R q0 -> okA sh R' q0) /\
+    (forall q0, In q0 sh -> q_name q0 <> n -> okN sh R q0 -> okN sh R' q0) /\
+    R' n = mkR (freq q (vadd (r_creq (R n)) d)) (vadd (r_creq (R n)) d)
+               (if self then vadd (r_sreq (R n)) d else r_sreq (R n))
+               (vadd (r_np (R n)) dnp)
+               (if self then vadd (r_snp (R n)) dnp else r_snp (R n)) /\
+    sumc sh (limR R') n = sumc sh (limR R) n /\ sumc sh (npR R') n = sumc sh (npR R) n /\
+    (forall m, m <> n -> r_sreq (R' m) = r_sreq (R m) /\ r_snp (R' m) = r_snp (R m)) /\
+    (forall m, ~ In m l -> R' m = R m).
+  Proof.
+    intros Hr Hf Hpos Hanc Hc Hnp Hself R'.
+    assert (Hn0 : n <> 0) by (rewrite <- (find_name _ _ _ Hf); apply Hnz; eapply find_in; eauto).
+    destruct (walk_req_spec sh Hshape_nd Hnz Hvals n l Hr R d dnp self Hpos)
+      as (Hfr & Hpos' & Hb & Ha & Hn & Hst & Hsl & Hsn).
+    fold R' in Hfr, Hpos', Hb, Ha, Hn, Hst, Hsl, Hsn.
+    refine (conj Hpos' (conj _ (conj Ha (conj _ (conj _ (conj Hsl (conj Hsn (conj _ Hfr)))))))).
+    - intros q0 Hq0 [HB|Hin].
+      + destruct (in_dec Z.eq_dec (q_name q0) l) as [Hin|Hin].
+        * eapply Hb; eauto. apply in_find; assumption.
+        * unfold okB. rewrite Hfr by exact Hin. exact HB.
+      + eapply Hb; eauto. apply in_find; assumption.
+    - apply Hn; [intros _; exact Hnp | exact Hanc].
+    - rewrite (Hst q Hf). unfold req_node.
+      rewrite (vclamp_nonneg _ Hc), (vclamp_nonneg _ Hnp).
+      destruct self; [destruct (Hself eq_refl) as [H1 H2]; rewrite (vclamp_nonneg _ H1), (vclamp_nonneg _ H2)|]; reflexivity.
+    - intros m Hm. apply walk_req_self. right.
+      destruct (reaches_head _ _ _ Hr Hn0) as [t ->]. exact Hm.
+  Qed.
+
+  Lemma walk_used_ind n l q U d dnp self :
+    reaches sh n l -> find sh n = Some q -> PosU sh U ->
+    (forall q0, In q0 sh -> In (q_name q0) (tl_ok l) -> okU sh U q0 /\ okUN sh U q0) ->
+    vnonneg (vadd (u_used (U n)) d) -> vnonneg (vadd (u_np (U n)) dnp) ->
+    (self = true -> vnonneg (vadd (u_sused (U n)) d) /\ vnonneg (vadd (u_snp (U n)) dnp)) ->
+    let U' := walk_used U l d dnp self in
+    PosU sh U' /\
+    (forall q0, In q0 sh -> q_name q0 <> n -> okU sh U q0 -> okU sh U' q0) /\
+    (forall q0, In q0 sh -> q_name q0 <> n -> okUN sh U q0 -> okUN sh U' q0) /\
+    U' n = mkU (vadd (u_used (U n)) d) (if self then vadd (u_sused (U n)) d else u_sused (U n))
+               (vadd (u_np (U n)) dnp) (if self then vadd (u_snp (U n)) dnp else u_snp (U n)) /\
+    sumc sh (usedU U') n = sumc sh (usedU U) n /\ sumc sh (unpU U') n = sumc sh (unpU U) n /\
+    (forall m, m <> n -> u_sused (U' m) = u_sused (U m) /\ u_snp (U' m) = u_snp (U m)) /\
+    (forall m, ~ In m l -> U' m = U m).
+  Proof.
+    intros Hr Hf Hpos Hanc Hc Hnp Hself U'.
+    assert (Hn0 : n <> 0) by (rewrite <- (find_name _ _ _ Hf); apply Hnz; eapply find_in; eauto).
+    destruct (walk_used_U sh n l Hshape_nd Hnz Hr U d dnp self Hpos) as (Hu & Hst & Hsu).
+    destruct (walk_used_UN sh n l Hshape_nd Hnz Hr U d dnp self Hpos) as (Hun & _ & Hsun).
+    fold U' in Hu, Hst, Hsu, Hun, Hsun.
+    refine (conj _ (conj _ (conj _ (conj _ (conj Hsu (conj Hsun (conj _ _))))))).
+    - apply walk_used_pos. exact Hpos.
+    - apply Hu; [intros _; exact Hc | intros q0 Hq0 Hin; apply Hanc; assumption].
+    - apply Hun; [intros _; exact Hnp | intros q0 Hq0 Hin; apply Hanc; assumption].
+    - rewrite (Hst Hn0). unfold used_node.
+      rewrite (vclamp_nonneg _ Hc), (vclamp_nonneg _ Hnp).
+      destruct self; [destruct (Hself eq_refl) as [H1 H2]; rewrite (vclamp_nonneg _ H1), (vclamp_nonneg _ H2)|]; reflexivity.
+    - intros m Hm. apply walk_used_self. right.
+      destruct (reaches_head _ _ _ Hr Hn0) as [t ->]. exact Hm.
+    - intros m Hm. apply walk_used_frame. exact Hm.
+  Qed.
+End DeltaInd.
